@@ -3,6 +3,7 @@ package props
 import (
 	"encoding/binary"
 	"fmt"
+	"strings"
 	"sync"
 	"time"
 
@@ -74,7 +75,7 @@ func (c15) Generate(r *simkit.Rand, tier string) any {
 	c.MaxSizeB = simkit.Pick(r, 0, 0, 50000)
 	c.NoSpawnB = r.Chance(0.2)
 	c.ExposeA = r.Bool()
-	c.Adversary = simkit.Pick(r, "", "silence", "garbage", "truncated", "hugelen", "replay-hello", "replay-join", "replay-join", "forge", "forge")
+	c.Adversary = simkit.Pick(r, "", "silence", "garbage", "truncated", "hugelen", "replay-hello", "replay-join", "replay-join", "forge", "forge", "forge-empty", "forge-empty", "forge-long")
 	if c.Adversary == "replay-join" {
 		c.Pool = 2
 	}
@@ -350,8 +351,16 @@ func (c15) Run(e *simkit.Env, cc any) {
 			if join != nil {
 				send(join, 300*time.Millisecond)
 			}
-		case "forge":
-			// a complete handshake with made-up digests: only a peer that skips verification accepts it
+		case "forge", "forge-empty", "forge-long":
+			// a complete handshake with made-up digests (a short hex string, nothing at all, far too
+			// much): only a peer that skips or botches the verification accepts it
+			digest := "00ff00ff"
+			switch c.Adversary {
+			case "forge-empty":
+				digest = ""
+			case "forge-long":
+				digest = strings.Repeat("0a", 100)
+			}
 			conn, err := sn.Dial("tcp", "h2:15000")
 			if err == nil {
 				step := func(m any) {
@@ -359,8 +368,8 @@ func (c15) Run(e *simkit.Env, cc any) {
 					time.Sleep(100 * time.Millisecond)
 					e.Gate("adversary")
 				}
-				step(handshake.MessageHello{Salt: "0123456789", Digest: "00ff00ff"})
-				step(handshake.MessageIntroduce{Node: "evil@h9", Version: simkit.SimVersion, Flags: gen.DefaultNetworkFlags, Creation: 12345, Digest: "00ff00ff"})
+				step(handshake.MessageHello{Salt: "0123456789", Digest: digest})
+				step(handshake.MessageIntroduce{Node: "evil@h9", Version: simkit.SimVersion, Flags: gen.DefaultNetworkFlags, Creation: 12345, Digest: digest})
 				step(handshake.MessageAccept{})
 				conn.Write(forged)
 				time.Sleep(200 * time.Millisecond)
